@@ -202,7 +202,8 @@ CHECKS = {
              "(the application sees exactly the commands among the fed entries, in order - nothing skipped, doubled or reordered), C19_adapter_prefix_even_on_rejection, C19_partial (two nodes - or two lifetimes of a "
              "restarted node - fed G.take k1 and G.take k2 have applied command sequences one of which is a prefix of the other), C19_same_commands_same_state (same fed prefix => same application state, membership "
              "and applied id), C19_responders_do_not_matter (proposer and followers end in the same state), C19_last_applied_is_last_fed, C19_local_failure_stops_the_node (a node-local application failure "
-             "ends the call with the error and leaves a prefix applied - never a gap). Correspondence: MemStateMachine sliced verbatim from storage.rs at build "
+             "ends the call with the error and leaves a prefix applied - never a gap), C19_plane_nodes_apply_prefixes_of_one_log (in the data-plane model of C22/C23, for every schedule, every node has applied a prefix of "
+             "the one append-only command log and holds exactly the metadata that prefix leads to). Correspondence: MemStateMachine sliced verbatim from storage.rs at build "
              "time + octopii/src/state_machine.rs compiled from /repo, ~190 node programs per quick run (1500 thorough; clusters of 2-3 nodes over one committed sequence, 1-3 process lifetimes each, "
              "rejected commands, node-local application failures, gappy streams) compared line by line with Adapter.applyAll; independent oracle per node and the pairwise prefix relation across each cluster.",
              note=BASE_NOTE + "The second sentence of the property (every successful proposal is eventually applied by every live node) and everything that depends on openraft's replication/election logic, the QUIC "
